@@ -22,6 +22,20 @@ def run(c):
     proto.absorb_filtered(c, res, 'C04', ('C06',))
     # arithmetic of the cut-offs
     vlib.table_check(c, 'Retention', 'Retention.cfg', 'retention', workers=1, tlc_timeout=300)
+    # unbounded lift of the arithmetic with the TLA+ proof system (all retentions >= 0, all cut-offs, all times)
+    import subprocess, shutil, os, re
+    d = vlib.scratch('tlaps-')
+    shutil.copy(os.path.join(vlib.SPEC, 'RetentionProof.tla'), d)
+    try:
+        pr = subprocess.run(['timeout', '300', 'tlapm', '--threads', '8', 'RetentionProof.tla'], cwd=d, capture_output=True, text=True)
+        m = re.search(r'All (\d+) obligations? proved', pr.stdout + pr.stderr)
+        c.extra['tlaps'] = {'module': 'RetentionProof.tla', 'obligations_proved': int(m.group(1)) if m else 0,
+                            'theorems': ['LoadNotLonger', 'LoadAtLeastQuarter', 'NoBounceArith']}
+        if not m:
+            c.notes.append('tlapm did not prove RetentionProof.tla: ' + (pr.stdout + pr.stderr)[-300:])
+            c.extra['tlaps']['output'] = (pr.stdout + pr.stderr)[-300:]
+    except Exception as e:  # the bounded TLC result and the binding remain what is claimed
+        c.extra['tlaps'] = {'error': str(e)}
     c.assumptions += ['retention_days >= 0 (DESIGN.md s.7)', 'real durations are compared with the integer model within 1 s / 1e-6 (float32 RetentionDays)',
                       't_load is the time LoadOnce reads before taking the write lock']
     c.extra['rule'] = 'protocol behaviours with deletions replayed on real Syncers; retention grid rows + seeded random sweeper configurations'
